@@ -54,6 +54,8 @@ type Report struct {
 	VacuityIssues  []string
 	SharedWrites   map[string]int
 	OracleCases    int
+	ResolveErrorsAgreed int
+	ResolveRefused      int
 	Explanation    string
 }
 
@@ -69,6 +71,12 @@ func (r *Report) AddSkel(sk *Skeleton, s *SkelResult) {
 	if s.SkelError != "" {
 		r.SkelErrors = append(r.SkelErrors, sk.Name+": "+s.SkelError)
 		return
+	}
+	if s.ResolveErrorAgreed {
+		r.ResolveErrorsAgreed++
+	}
+	if s.ResolveRefused {
+		r.ResolveRefused++
 	}
 	r.Paths += s.Paths
 	r.Forks += s.Forks
@@ -297,6 +305,8 @@ func (r *Report) writeEvidence(wall float64, violations, inconclusive int) {
 		"oracle_cases_checked":          r.OracleCases,
 		"findings_reproduced":           len(r.Findings),
 		"exhaustive":                    false,
+		"resolve_errors_agreed":         r.ResolveErrorsAgreed,
+		"resolve_refused_as_documented": r.ResolveRefused,
 		"workers":                       runtime.NumCPU(),
 	}
 	if r.Explanation != "" {
